@@ -29,7 +29,7 @@ def bound(size):
 def model_checks(tier):
     q = tier == 'quick'
     cfg = ('SPECIFICATION Spec\nCONSTANTS MaxCells = %d\n MaxRefsGen = %d\n ChainDepths = {%s}\nINVARIANT WorkLinear\nINVARIANT Correct\n'
-           'PROPERTY Terminates\nCHECK_DEADLOCK FALSE\n' % (4 if q else 5, 2, '5, 12' if q else '5, 12, 30'))
+           'PROPERTY Terminates\nCHECK_DEADLOCK FALSE\n' % (4 if q else 6, 2, '5, 12' if q else '5, 12, 30, 60'))
     return [dict(name='order_algo', module='MC_Work.tla', workers=8, timeout=1500, heap='8g', cfg=cfg)]
 
 
